@@ -41,4 +41,6 @@ mod incoming;
 mod server;
 mod server_handle;
 mod shutdown_mode;
+#[cfg(feature = "verif_hooks")]
+pub mod verif;
 mod worker;
